@@ -1859,6 +1859,8 @@ fn mark_if_excluded(sig: String, no_exclusions: bool) -> String {
     }
 }
 
+include!("c18/procs.rs");
+
 fn main() {
     // reqwest honours proxy variables; pings must go to 127.0.0.1 directly
     for k in ["http_proxy", "HTTP_PROXY", "https_proxy", "HTTPS_PROXY", "all_proxy", "ALL_PROXY"] {
@@ -1905,6 +1907,22 @@ fn main() {
         GroupOpts { cases: n, max_shrink_iters: 60, watchdog_s: 300, ..Default::default() },
         races_case_strategy,
         run,
+    );
+    let ripd_bin = std::env::var_os("C18_RIPD_BIN").map(PathBuf::from).unwrap_or_else(|| PathBuf::from("/verif/target/repo-bins/debug/ripd"));
+    let rip_bin = std::env::var_os("C18_RIP_BIN").map(PathBuf::from).unwrap_or_else(|| PathBuf::from("/verif/target/repo-bins/debug/rip"));
+    if !ripd_bin.exists() || !rip_bin.exists() {
+        println!("INCONCLUSIVE property=C18: repository binaries missing ({} / {})", ripd_bin.display(), rip_bin.display());
+        std::process::exit(2);
+    }
+    let _ = PROC_BINS.set(ProcBins { ripd: ripd_bin, rip: rip_bin });
+    check.assume("group procs: contenders are real processes of the repository's own binaries built from the working tree (ripd, `rip serve`, `rip threads ensure`); a process holds the authority role from the moment it owns a LISTEN socket (serve() binds only after acquiring the lock) until it dies; processes of a store are found through /proc/<pid>/environ (RIP_DATA_DIR=<the case's unique directory>)");
+    let n = check.cases(200, 4_000);
+    check.group(
+        "procs",
+        "REAL processes: leftover of a really crashed authority (ripd SIGKILLed; optionally meta removed, lock emptied or overwritten with garbage) or a clean store x wave of 1-5 contenders (`rip threads ensure` = the CLI auto-start/attach loop, `ripd`, `rip serve`) at generated start offsets x optional second wave against the live winner or after SIGKILLing it. Every 12 ms: processes of this store owning a LISTEN socket (two at once = two authorities). At quiescence: exactly one listener, lock.json and meta.json name it, its endpoint answers, a live winner survives a second wave untouched; a store nobody brought up is probed alone twice before it is called unusable. non-trivial = >=2 contenders; distinct by case hash",
+        GroupOpts { cases: n, max_shrink_iters: 12, watchdog_s: 900, ..Default::default() },
+        proc_case_strategy,
+        run_procs,
     );
     check.finish();
 }
